@@ -327,7 +327,7 @@ def compare_model(cfg, impl, vals):
     on = cfg["algo"] in ON
     k = 0
     for ci, rc in enumerate(impl["calls"]):
-        ((evs, fin, stopped), total_used) = vals[k]
+        evs, fin, stopped, total_used = vals[k]
         pcs = vals[k + 1]
         k += 2
         got = [(t["num"], 0 if on else t["gs"]) for t in rc["trains"]]
